@@ -57,7 +57,7 @@ fn main() {
             if a.len() < 5 {
                 usage();
             }
-            let cell = e2_checks2::C05Cell { n: a[0] as usize, side_a: a[1] as usize, phase: a[2], start_event: a[3], extra: a[4], asymmetric: a[1] == 0, bumped: a.get(5).copied().unwrap_or(0) == 1 };
+            let cell = e2_checks2::C05Cell { n: a[0] as usize, side_a: a[1] as usize, phase: a[2], start_event: a[3], extra: a[4], asymmetric: a[1] == 0, bumped: a.get(5).copied().unwrap_or(0) == 1, twice: a.get(5).copied().unwrap_or(0) == 2 };
             exit(e2_checks2::c05_show(&cell, &Default::default()));
         }
         "abort-demo-decode" => {
